@@ -1,6 +1,7 @@
 //! Verification hooks, only compiled with the cargo feature `verif_hooks`.
 //!
-//! Nothing in here changes the behaviour of the crate, the module only makes
+//! Nothing in here changes the behaviour of the crate unless a step budget is
+//! set explicitly (see [set_step_budget]), the module only makes
 //! internal quantities of the encodation planner and the data decoder
 //! observable for external property checks.
 use alloc::vec::Vec;
@@ -25,6 +26,8 @@ pub struct PlanStats {
     pub input_len: usize,
     /// Number of planner calls on this thread since the last reset.
     pub calls: usize,
+    /// The run was abandoned because it exceeded the budget set with [set_step_budget].
+    pub budget_exceeded: bool,
 }
 
 std::thread_local! {
@@ -37,7 +40,27 @@ std::thread_local! {
         written: 0,
         input_len: 0,
         calls: 0,
+        budget_exceeded: false,
     });
+    static STEP_BUDGET: Cell<Option<usize>> = Cell::new(None);
+}
+
+/// Limit the number of `Plan::step` calls of one planner run on this thread.
+///
+/// With a budget set the planner gives up (as if no plan existed) once the
+/// count is exceeded and records that in [PlanStats::budget_exceeded], so that a
+/// check of the planner's work bound ends with a number instead of running for
+/// hours. `None`, the default, removes the limit.
+pub fn set_step_budget(budget: Option<usize>) {
+    STEP_BUDGET.with(|b| b.set(budget));
+}
+
+pub(crate) fn over_budget() -> bool {
+    let over = STEP_BUDGET.with(|b| b.get()).map_or(false, |b| STATS.with(|s| s.get().steps > b));
+    if over {
+        update(|s| s.budget_exceeded = true);
+    }
+    over
 }
 
 /// Statistics of the last planner run on the current thread.
